@@ -129,10 +129,20 @@ func (c *Ctx) poolTermOn(p *core.Path, ip *idPool, v ssa.Value, searches map[ssa
 		return lin{c: k, vars: map[string]int64{}, ok: true}
 	}
 	if ip.isListLen(v) {
+		if poolLenAt != nil {
+			if t, have := poolLenAt[v]; have {
+				return t // the length the list had when this len() was evaluated on the path (it may have grown or shrunk since the entry)
+			}
+		}
 		return lin{vars: map[string]int64{"L": 1}, ok: true}
 	}
 	if cv, ok := v.(*ssa.Call); ok {
 		if sc := cv.Call.StaticCallee(); sc != nil && sc.Pkg != nil && sc.Pkg.Pkg.Path() == "sort" && sc.Name() == "Search" && ip.isListLen(conversionsOnly(cv.Call.Args[0])) {
+			if poolLenAt != nil {
+				if t, have := poolLenAt[conversionsOnly(cv.Call.Args[0])]; have && !(t.ok && t.c == 0 && len(t.vars) == 1 && t.vars["L"] == 1) {
+					return lin{} // a search over a list that has already changed on this path: not modelled
+				}
+			}
 			name, have := searches[v]
 			if !have {
 				name = fmt.Sprintf("S%d", len(searches))
@@ -151,6 +161,9 @@ func (c *Ctx) poolTermOn(p *core.Path, ip *idPool, v ssa.Value, searches map[ssa
 	}
 	return lin{}
 }
+
+// poolLenAt: while a path is being judged, the length (as a term over L) of the list at each len(list) evaluated on it.
+var poolLenAt map[ssa.Value]lin
 
 type linFact struct {
 	a, b lin
@@ -260,10 +273,70 @@ func (c *Ctx) ruleFreeListBounds(id string) {
 			ds := decisions(p)
 			searches := map[ssa.Value]string{}
 			replaced := false
+			// the length of the list along the path, as a term over its length at entry: an append of k elements adds k,
+			// a re-slice list[a:b] gives b-a, append(list[:a], list[b:]...) gives a+(len-b); anything else is not modelled
+			cur := lin{vars: map[string]int64{"L": 1}, ok: true}
+			ofLoad := map[ssa.Value]lin{}
+			poolLenAt = map[ssa.Value]lin{}
+			var sliceLen func(v ssa.Value) lin
+			sliceLen = func(v ssa.Value) lin {
+				v = conversionsOnly(p.Resolve(conversionsOnly(v)))
+				if ip.isListLoad(v) {
+					if t, have := ofLoad[v]; have {
+						return t
+					}
+					return lin{}
+				}
+				switch x := v.(type) {
+				case *ssa.Const:
+					if x.IsNil() {
+						return lin{vars: map[string]int64{}, ok: true}
+					}
+				case *ssa.MakeSlice:
+					return c.poolTermOn(p, ip, x.Len, searches)
+				case *ssa.Slice:
+					var base lin
+					if al, isAlloc := x.X.(*ssa.Alloc); isAlloc {
+						if at, isArr := derefT(al.Type()).Underlying().(*types.Array); isArr {
+							base = lin{c: at.Len(), vars: map[string]int64{}, ok: true}
+						}
+					} else {
+						base = sliceLen(x.X)
+					}
+					hi, lo := base, lin{vars: map[string]int64{}, ok: true}
+					if x.High != nil {
+						hi = c.poolTermOn(p, ip, x.High, searches)
+					}
+					if x.Low != nil {
+						lo = c.poolTermOn(p, ip, x.Low, searches)
+					}
+					return hi.add(lo, -1)
+				case *ssa.Call:
+					if b, isB := x.Call.Value.(*ssa.Builtin); isB && b.Name() == "append" && len(x.Call.Args) == 2 {
+						return sliceLen(x.Call.Args[0]).add(sliceLen(x.Call.Args[1]), 1)
+					}
+				}
+				return lin{}
+			}
 			for seq, pi := range p.Instrs() {
 				in := pi.In
+				if lv, isVal := in.(ssa.Value); isVal {
+					if ip.isListLoad(lv) {
+						if !replaced {
+							ofLoad[lv] = cur
+						}
+					} else if ip.isListLen(lv) {
+						if t, have := ofLoad[lv.(*ssa.Call).Call.Args[0]]; have {
+							poolLenAt[lv] = t
+						}
+					}
+				}
 				if isListStore(in) {
-					replaced = true
+					if nl := sliceLen(in.(*ssa.Store).Val); nl.ok && !replaced {
+						cur = nl
+					} else {
+						replaced = true
+					}
 				}
 				var idxs []ssa.Value
 				kind := ""
@@ -298,7 +371,15 @@ func (c *Ctx) ruleFreeListBounds(id string) {
 					continue
 				}
 				var terms []lin
-				decided := !replaced
+				var base ssa.Value
+				switch x := in.(type) {
+				case *ssa.IndexAddr:
+					base = x.X
+				case *ssa.Slice:
+					base = x.X
+				}
+				upperT, haveUpper := ofLoad[base]
+				decided := haveUpper && upperT.ok
 				for _, iv := range idxs {
 					t := c.poolTermOn(p, ip, iv, searches)
 					if !t.ok {
@@ -332,7 +413,7 @@ func (c *Ctx) ruleFreeListBounds(id string) {
 				models(vars, facts, func(env map[string]int64) bool {
 					for _, t := range terms {
 						val := t.eval(env)
-						upper := env["L"]
+						upper := upperT.eval(env)
 						inBounds := val >= 0 && val < upper
 						if kind == "slice bound" {
 							inBounds = val >= 0 && val <= upper
@@ -347,6 +428,7 @@ func (c *Ctx) ruleFreeListBounds(id string) {
 			}
 		}
 	}
+	poolLenAt = nil
 	for i, in := range order {
 		v := res[in]
 		kind := "index"
